@@ -139,7 +139,7 @@ def _nice(hyps, goal, sym, timeout_ms):
     if not cons:
         return None
     s = z3.Solver()
-    s.set("timeout", min(timeout_ms, 8000))
+    engine._budget(s, min(timeout_ms, 8000))
     s.add(*hyps)
     s.add(z3.Not(goal))
     s.add(*cons)
